@@ -217,8 +217,9 @@ Definition q_get (st : bstate) (key : bytes) (rev : N) : resp :=
   | GErr _ _ => PErr
   | GOk v m =>
       let hdr := if cur <? m then m else cur in
-      (* `if val != nil` *)
-      if a_nil_empty A && match v with [] => true | _ => false end then PGet hdr None else PGet hdr (Some (v, m))
+      (* the key-value is returned whenever the read succeeded, whatever the value (an adapter may hand an empty value
+         back as nil: transcripts compare values up to nil = empty) *)
+      PGet hdr (Some (v, m))
   end.
 
 (* ---------- scanner ---------- *)
